@@ -15,6 +15,7 @@ package ssh
 
 import (
 	"bytes"
+	"errors"
 	"fmt"
 	"io"
 	"strings"
@@ -45,6 +46,13 @@ func (lr *TypeWriterReadWriteCloser) Write(p []byte) (n int, err error) {
 }
 
 func (lr *TypeWriterReadWriteCloser) Read(p []byte) (n int, err error) {
+	// the line editor (x/crypto/ssh/terminal) asks for zero bytes when its 256-byte input buffer
+	// is full of a key sequence that never ends (ESC + 255 bytes without a final letter); the
+	// channel answers (0, nil) at once and readLine would spin for ever: end the shell instead
+	if len(p) == 0 {
+		return 0, errors.New("terminal input buffer full")
+	}
+
 	n, err = lr.ReadWriteCloser.Read(p)
 
 	now := time.Now()
